@@ -376,3 +376,37 @@ func (n *Net) Blackhole(id string, on bool) {
 }
 
 var _ = errors.New
+
+// ---------------------------------------------------------------- default dialer seam
+
+var (
+	curMu  sync.Mutex
+	curNet *Net
+	curSrc = "192.0.2.1:0"
+)
+
+// SetCurrent makes n the network used by DefaultDial (nil = real network).
+func SetCurrent(n *Net, source string) {
+	curMu.Lock()
+	curNet = n
+	if source != "" {
+		curSrc = source
+	}
+	curMu.Unlock()
+}
+
+// DefaultDial is what the check build substitutes for (&net.Dialer{}).DialContext
+// where the code under test has no dialer seam of its own.
+func DefaultDial(ctx context.Context, network, addr string) (net.Conn, error) {
+	curMu.Lock()
+	n, src := curNet, curSrc
+	curMu.Unlock()
+	if n == nil {
+		return (&net.Dialer{}).DialContext(ctx, network, addr)
+	}
+	c, err := n.Dial(ctx, src, addr)
+	if err != nil {
+		return nil, err
+	}
+	return c, nil
+}
